@@ -725,4 +725,174 @@ example : ∃ c1 i rest,
   · decide
   · decide
 
+/-! ## sliding window: the leave-one / CanResume ordering -/
+
+/-- positions held by sequence `s` -/
+def positions (cells : List Cell) (s : Nat) : List Int := (cells.filter (·.has s)).map (·.pos)
+
+/-- every position is held at most once -/
+def PosUnique (P : List Int) : Prop := ∀ q : Int, (P.filter (fun x => x == q)).length ≤ 1
+
+def cnt (P : List Int) (lo : Int) (n : Nat) : Nat := (P.filter fun x => decide (lo ≤ x) && decide (x < lo + n)).length
+
+theorem cnt_succ (P : List Int) (lo : Int) (n : Nat) :
+    cnt P lo (n + 1) = cnt P lo n + (P.filter (fun x => x == lo + n)).length := by
+  unfold cnt
+  have hc : ((n + 1 : Nat) : Int) = (n : Int) + 1 := by omega
+  rw [hc]
+  induction P with
+  | nil => rfl
+  | cons x xs ih =>
+    simp only [List.filter_cons]
+    by_cases h1 : lo ≤ x
+    · by_cases h2 : x < lo + n
+      · have h3 : x < lo + ((n : Int) + 1) := by omega
+        have h4 : ¬ x = lo + n := by omega
+        simp only [h1, h2, h3, h4, decide_true, decide_false, Bool.and_self, if_true, beq_iff_eq, if_false,
+          List.length_cons]
+        omega
+      · by_cases h5 : x = lo + n
+        · subst h5
+          have h3 : lo + (n : Int) < lo + ((n : Int) + 1) := by omega
+          simp only [h1, h2, h3, decide_true, decide_false, Bool.and_self, Bool.and_false, Bool.and_true,
+            if_true, beq_iff_eq, if_false, List.length_cons, Bool.false_eq_true]
+          omega
+        · have h3 : ¬ x < lo + ((n : Int) + 1) := by omega
+          simp only [h1, h2, h3, h5, decide_true, decide_false, Bool.and_self, Bool.and_false, Bool.and_true,
+            if_true, beq_iff_eq, if_false, List.length_cons, Bool.false_eq_true]
+          omega
+    · have h4 : ¬ x = lo + n := by omega
+      simp only [h1, h4, decide_true, decide_false, Bool.false_and, if_true, beq_iff_eq, if_false,
+        Bool.false_eq_true]
+      omega
+
+theorem cnt_le (P : List Int) (hu : PosUnique P) (lo : Int) (n : Nat) : cnt P lo n ≤ n := by
+  induction n with
+  | zero =>
+    unfold cnt
+    have : P.filter (fun x => decide (lo ≤ x) && decide (x < lo + (0 : Nat))) = [] := by
+      apply List.filter_eq_nil_iff.mpr
+      intro x _; simp only [Bool.and_eq_true, decide_eq_true_eq]; omega
+    simp [this]
+  | succ n ih => rw [cnt_succ]; have := hu (lo + n); omega
+
+/-- counting as many entries as the range is long, with no duplicates, means every position is there -/
+theorem cnt_full (P : List Int) (hu : PosUnique P) (lo : Int) (n : Nat) (h : cnt P lo n = n) :
+    ∀ k : Nat, k < n → lo + k ∈ P := by
+  induction n with
+  | zero => intro k hk; omega
+  | succ n ih =>
+    rw [cnt_succ] at h
+    have h1 := cnt_le P hu lo n
+    have h2 := hu (lo + n)
+    have h3 : cnt P lo n = n := by omega
+    have h4 : (P.filter (fun x => x == lo + n)).length = 1 := by omega
+    intro k hk
+    by_cases hkn : k = n
+    · subst hkn
+      have : P.filter (fun x => x == lo + k) ≠ [] := by
+        intro hnil; rw [hnil] at h4; cases h4
+      obtain ⟨x, hx⟩ := List.exists_mem_of_ne_nil _ this
+      have := List.mem_filter.mp hx
+      have hxe : x = lo + k := by simpa using this.2
+      rw [← hxe]; exact this.1
+    · exact ih h3 k (by omega)
+
+theorem have_eq (cells : List Cell) (s : Nat) (lo hi : Int) :
+    (cells.filter fun c => c.has s && decide (lo ≤ c.pos) && decide (c.pos < hi)).length =
+      ((positions cells s).filter fun x => decide (lo ≤ x) && decide (x < hi)).length := by
+  unfold positions
+  induction cells with
+  | nil => rfl
+  | cons c cs ih =>
+    by_cases h1 : c.has s
+    · by_cases h2 : (decide (lo ≤ c.pos) && decide (c.pos < hi)) = true
+      · simp [List.filter_cons, h1, h2, ih]
+      · simp [List.filter_cons, h1, h2, ih]
+    · simp [List.filter_cons, h1, ih]
+
+/-- **`CanResume` is sound** (tree version, with the presence count): if it answers yes for position
+    `p` then every position of the window `[max 0 (p - W), p)` is held by the sequence. -/
+theorem canResume_sound (W : Nat) (cells : List Cell) (s p : Nat) (hu : PosUnique (positions cells s))
+    (h : canResume (some W) cells s p = true) :
+    ∀ q : Int, max 0 ((p : Int) - W) ≤ q → q < p → q ∈ positions cells s := by
+  unfold canResume canResumeV at h
+  simp only at h
+  split at h
+  · cases h
+  · next p0 rest hps =>
+    split at h
+    · cases h
+    · split at h
+      · cases h
+      · simp only [Bool.not_true, Bool.false_eq_true, if_false, decide_eq_true_eq] at h
+        have hlo : max 0 ((p : Int) - W) ≤ (p : Int) := by omega
+        generalize hws : max 0 ((p : Int) - W) = lo at h hlo ⊢
+        have hcnt := have_eq cells s lo (p : Int)
+        have hn : lo + (((p : Int) - lo).toNat : Int) = p := by omega
+        have hc : cnt (positions cells s) lo ((p : Int) - lo).toNat = ((p : Int) - lo).toNat := by
+          unfold cnt
+          rw [hn, ← hcnt]
+          omega
+        intro q hq1 hq2
+        have := cnt_full _ hu lo _ hc (q - lo).toNat (by omega)
+        have hq : lo + ((q - lo).toNat : Int) = q := by omega
+        rw [hq] at this
+        exact this
+
+theorem positions_eq_view (cells : List Cell) (s : Nat) :
+    positions cells s = (view cells s).map (·.1) := by
+  unfold positions view
+  rw [List.map_map]; rfl
+
+/-- **The leave-one / CanResume ordering.**  LoadCacheSlot on a sliding-window cache (window `W`,
+    the tree's `CanResume`, asked for the position that is really resumed, i.e. AFTER the "leave one
+    input" decrement): the record is cut to `m` inputs, processing continues with `prompt.drop m` at
+    position `m`, and every position of the window `[max 0 (m - W), m)` — all that the next batch's
+    tokens (positions `≥ m`) can need from the cache — is held by the slot's sequence.
+    (Asking CanResume before the decrement, as seeded change C07-B does, breaks exactly this: the
+    answer is about `[m+1-W, m+1)` and position `m - W` may already have slid out.) -/
+theorem load_window_present (c : Cache) (W i n : Nat) (prompt : List Tok) (now : Nat)
+    (hb : PosBound c.cells) (hu : PosUnique (positions c.cells (getSlot c.slots i).id))
+    (c' : Cache) (j : Nat) (rest : List Tok)
+    (h : loadTail c i n prompt now (canResume (some W)) = .ok (c', j, rest)) :
+    ∃ m, m ≤ n ∧ rest = prompt.drop m ∧
+      c'.slots = setSlot c.slots i (fun s => { s with inUse := true, lastUsed := now, inputs := s.inputs.take m }) ∧
+      ∀ q : Int, max 0 ((m : Int) - W) ≤ q → q < m → q ∈ positions c'.cells (getSlot c.slots i).id := by
+  unfold loadTail at h
+  simp only at h
+  generalize hm1 : (if n = prompt.length then n - 1 else n) = m1 at h
+  have hm1n : m1 ≤ n := by rw [← hm1]; split <;> omega
+  by_cases hcond : (decide (m1 > 0) && !canResume (some W) c.cells (getSlot c.slots i).id m1) = true
+  · -- cannot resume: everything is erased, nothing is needed
+    simp only [hcond, if_true] at h
+    have hrc := (remove_clear c.canShift c.cells (getSlot c.slots i).id ((0 : Nat) : Int) hb).1
+    simp only [hrc, Except.ok.injEq, Prod.mk.injEq] at h
+    obtain ⟨rfl, _, rfl⟩ := h
+    exact ⟨0, by omega, rfl, rfl, fun q h1 h2 => by omega⟩
+  · simp only [hcond, if_false, Bool.false_eq_true] at h
+    have hrc := remove_clear c.canShift c.cells (getSlot c.slots i).id (m1 : Int) hb
+    simp only [hrc.1, Except.ok.injEq, Prod.mk.injEq] at h
+    obtain ⟨rfl, _, rfl⟩ := h
+    refine ⟨m1, hm1n, rfl, rfl, ?_⟩
+    intro q hq1 hq2
+    simp only
+    have hm0 : m1 > 0 := by omega
+    have hcr : canResume (some W) c.cells (getSlot c.slots i).id m1 = true := by
+      cases hc : canResume (some W) c.cells (getSlot c.slots i).id m1 with
+      | true => rfl
+      | false => simp [hm0, hc] at hcond
+    have hin := canResume_sound W c.cells _ m1 hu hcr q hq1 hq2
+    rw [positions_eq_view] at hin ⊢
+    rw [hrc.2]
+    obtain ⟨x, hx, hxq⟩ := List.mem_map.mp hin
+    exact List.mem_map.mpr ⟨x, List.mem_filter.mpr ⟨hx, by simp only [decide_eq_true_eq]; omega⟩, hxq⟩
+
+/-- why the order matters (seeded change C07-B): window 4, the sequence holds positions 4‥8 (3 has slid
+    out).  Resuming at 8 is fine, resuming at 7 is not — a CanResume answer for 8 says nothing about 7. -/
+theorem canResume_not_monotone :
+    let cells := [4, 5, 6, 7, 8].map fun p : Int => (⟨p, [0], 1, p⟩ : Cell)
+    canResume (some 4) cells 0 8 = true ∧ canResume (some 4) cells 0 7 = false ∧
+      (3 : Int) ∉ positions cells 0 := by decide
+
 end OllamaVerif.C07
